@@ -14,7 +14,7 @@ def gen_cases(tier):
     cases = []
     for i in range(n):
         rng = family.rng_for(sd, PROP, i)
-        schema = gen.SCHEMAS[i % len(gen.SCHEMAS)] if i % 9 != 4 else ("tlp_degenerate" if i % 2 else "t4_chain")
+        schema = gen.SCHEMAS[i % len(gen.SCHEMAS)] if i % 9 != 4 else (["tlp_degenerate", "t4_chain", "fanout3"][(i // 9) % 3])
         pr = gen.build_pair(rng, schema, dyadic=0.1 if i % 7 == 0 else 0.0)
         if pr is None:
             continue
